@@ -160,7 +160,7 @@ CONFIGS: Dict[str, Dict[str, List[Dict[str, Any]]]] = {
     "LevelBasedForaging": {
         "quick": [_c("default"), _c("g6a3f2v2gridL7", grid_size=6, agents=3, food=2, fov=2, grid_obs=True, time_limit=7),
                   _c("g6a3f2v1L20", grid_size=6, agents=3, food=2, fov=1, time_limit=20),
-                  _c("g6a2f2v6rawpenintL15", grid_size=6, agents=2, food=2, fov=6, normalize=False, penalty=1, time_limit=15), _c("g8a2f6v8L30", grid_size=8, agents=2, food=6, fov=8, time_limit=30, c10_keys={"quick": 3000, "thorough": 12000}), _c("g10a3f12v3L30", grid_size=10, agents=3, food=12, fov=3, time_limit=30), _c("g8a3f2v8ml3L12", grid_size=8, agents=3, food=2, fov=8, max_level=3, time_limit=12), _c("g8a3f3v3ml4coopL12", grid_size=8, agents=3, food=3, fov=3, max_level=4, force_coop=True, time_limit=12)],
+                  _c("g6a2f2v6rawpenintL15", grid_size=6, agents=2, food=2, fov=6, normalize=False, penalty=1, time_limit=15), _c("g8a2f6v8L30", grid_size=8, agents=2, food=6, fov=8, time_limit=30, c10_keys={"quick": 3000, "thorough": 12000}), _c("g10a3f12v3L30", grid_size=10, agents=3, food=12, fov=3, time_limit=30), _c("g8a3f2v8ml3L12", grid_size=8, agents=3, food=2, fov=8, max_level=3, time_limit=12), _c("g8a3f3v3ml4coopL12", grid_size=8, agents=3, food=3, fov=3, max_level=4, force_coop=True, time_limit=12), _c("g6a2f2v2gridL40", grid_size=6, agents=2, food=2, fov=2, grid_obs=True, time_limit=40)],
         "thorough": [
             _c("default"), _c("g5a1f1v1L3", grid_size=5, agents=1, food=1, fov=1, time_limit=3),
             _c("g6a3f2v2gridL7", grid_size=6, agents=3, food=2, fov=2, grid_obs=True, time_limit=7),
@@ -172,7 +172,7 @@ CONFIGS: Dict[str, Dict[str, List[Dict[str, Any]]]] = {
             _c("g6a3f2v1L20", grid_size=6, agents=3, food=2, fov=1, time_limit=20),
             # constructor arguments given as Python ints where floats are documented (dtype promotion paths)
             _c("g6a2f2v6rawpenintL15", grid_size=6, agents=2, food=2, fov=6, normalize=False, penalty=1, time_limit=15),
-            _c("g6a2f2v2gridpenint", grid_size=6, agents=2, food=2, fov=2, grid_obs=True, penalty=2, time_limit=25), _c("mk_L5", make_id="LevelBasedForaging-v0", time_limit=5), _c("g8a2f6v8L30", grid_size=8, agents=2, food=6, fov=8, time_limit=30, c10_keys={"quick": 3000, "thorough": 12000}), _c("g10a3f12v3L30", grid_size=10, agents=3, food=12, fov=3, time_limit=30), _c("g6a2f2v6L6np", grid_size=6, agents=2, food=2, fov=6, time_limit=6, tl_type="np.int64"), _c("g8a3f2v8ml3L12", grid_size=8, agents=3, food=2, fov=8, max_level=3, time_limit=12), _c("g8a3f3v3ml4coopL12", grid_size=8, agents=3, food=3, fov=3, max_level=4, force_coop=True, time_limit=12)
+            _c("g6a2f2v2gridpenint", grid_size=6, agents=2, food=2, fov=2, grid_obs=True, penalty=2, time_limit=25), _c("mk_L5", make_id="LevelBasedForaging-v0", time_limit=5), _c("g8a2f6v8L30", grid_size=8, agents=2, food=6, fov=8, time_limit=30, c10_keys={"quick": 3000, "thorough": 12000}), _c("g10a3f12v3L30", grid_size=10, agents=3, food=12, fov=3, time_limit=30), _c("g6a2f2v6L6np", grid_size=6, agents=2, food=2, fov=6, time_limit=6, tl_type="np.int64"), _c("g8a3f2v8ml3L12", grid_size=8, agents=3, food=2, fov=8, max_level=3, time_limit=12), _c("g8a3f3v3ml4coopL12", grid_size=8, agents=3, food=3, fov=3, max_level=4, force_coop=True, time_limit=12), _c("g6a2f2v2gridL40", grid_size=6, agents=2, food=2, fov=2, grid_obs=True, time_limit=40)
         ],
     },
     "Maze": {
